@@ -2,6 +2,7 @@ SPECIFICATION TSpec
 CONSTANTS
   Sym = {97}
   MaxLen = 0
+  WithFailAt = FALSE
   MaxOps = 0
 INVARIANT Verdict
 CONSTRAINT Consumed
